@@ -248,7 +248,11 @@ def from_real(v):
 def eval_clause(cl):
     """Concrete truth of a clause (Forall enumerated).  Returns (bool, witness)."""
     if isinstance(cl, Forall):
-        rngs = [range(int(lo), int(b)) for lo, b in zip(cl.lower, cl.bounds)]
+        def _i(x):
+            x = V.simplify_scalar(x) if not isinstance(x, int) else x
+            return int(x) if isinstance(x, int) else int(str(x))
+
+        rngs = [range(_i(lo), _i(b)) for lo, b in zip(cl.lower, cl.bounds)]
         for idx in itertools.product(*rngs):
             r = cl.fn(*idx)
             r = V.simplify_scalar(r) if not isinstance(r, bool) else r
@@ -472,7 +476,7 @@ def random_search(prop, targets, seed, n_each, outdir):
     os.makedirs(outdir, exist_ok=True)
     for target in targets:
         con = REGISTRY.get(target)
-        if con is None:
+        if con is None or getattr(con, "no_replay", False):
             continue
         tries = 0
         done = 0
